@@ -200,6 +200,10 @@ let rotate_run_handle (files : t list) (dect : t list) (enct : t list) (layt : t
 let handle (cmd : string) (args : t list) : t option =
   match cmd, args with
   | "save", [c; s; f] -> Some (out_sexp (Sv.save (cfg_of c) (fault_of f) (fs_of s)))
+  | "save-close", [c; s; f; m] ->
+    let cm = (match m with A "none" -> None | A "before" -> Some Sv.Before | A "mid" -> Some Sv.Mid
+                           | x -> failwith ("bad close mode " ^ to_string x)) in
+    Some (out_sexp (Sv.save_close (cfg_of c) (fault_of f) cm (fs_of s)))
   | "save2", [c; s; f; f2] -> Some (out_sexp (Sv.save2 (cfg_of c) (fault_of f) (fault_of f2) (fs_of s)))
   | "setmain", [i; s; f] -> Some (out_sexp (Sc.set_main (setin_of i) (fault_of f) (fs_of s)))
   | "setmain2", [i; s; f; f2] -> Some (out_sexp (Sc.set_main2 (setin_of i) (fault_of f) (fault_of f2) (fs_of s)))
